@@ -533,6 +533,9 @@ var handWritten = []string{
 	"// only a comment",
 	"",
 	"\n\n",
+	"}\n",
+	"{ }\n}\n",
+	"pub func foo.bar() {\n}\n}\n",
 	"pub const X : base.u32 = 00x1\n",
 	"pub const X : base.u32 = 0_1\npub const Y : base.u32 = 0_0\npub const Z : base.u32 = 0X\n",
 	"pub const X : base.u32 = " + strings.Repeat("1", 877) + "\npub const Y : base.u32 = " + strings.Repeat("2", 878) + "\n",
@@ -658,6 +661,8 @@ func runWuffs(r *hlib.Run) {
 			}
 		}
 	}
+
+	runRenderFuncs(r, srcs)
 
 	reqs := make([][][]byte, len(cases))
 	for i, c := range cases {
